@@ -108,6 +108,16 @@ def judge_float_text(text, value, typ):
     return bad, n, info
 
 
+def reproduces(numeral, readback, typ):
+    """'reading it back at the same type reproduces the value to that precision':
+    the value read back agrees with the shown numeral to the precision shown, i.e.
+    the numeral lies within half a unit of its last shown digit of it too.  (A
+    correctly rounding reader always satisfies this when the text was accurate for
+    the original value: the original is then a candidate at most half a unit away,
+    and the nearest value of the type is at least as close.)"""
+    return abs(numeral.value() - exact(readback, typ)) <= numeral.unit() / 2
+
+
 def same_digits(a, b):
     """two number texts show the same digits (blanks and sign aside)"""
     return a.strip().lstrip('-') == b.strip().lstrip('-')
